@@ -111,7 +111,8 @@ Definition gc_oracle (objs : list (N * N * list N)) (roots : list N) : list (N *
 
 Inductive c05case :=
 | AllocTrace (limit : N) (evs : list aev)
-| GcCase (objs : list (N * N * list N)) (roots : list N) (after : list (N * N)).
+| GcCase (objs : list (N * N * list N)) (roots : list N) (after : list (N * N))
+| ImplPanic.   (* the implementation panicked during a traced run: never acceptable (code 2) *)
 
 Definition check_gc (objs : list (N * N * list N)) (roots : list N) (after : list (N * N)) : list N :=
   (match gc (mk_heap objs) roots with
@@ -126,6 +127,7 @@ Definition check1 (c : c05case) : list N :=
       (if trace_model (a_new limit) evs then [] else [1]) ++
       (if trace_spec limit [] evs then [] else [2])
   | GcCase objs roots after => check_gc objs roots after
+  | ImplPanic => [2]
   end.
 
 Definition check_all := CheckUtil.check_all check1.
